@@ -84,7 +84,7 @@ theorem groupAdd_getElem_before (items : List Cont) (g : Cont) (i : Int) (j : Na
   rw [groupAdd_eq]
   have h := addPos_le items.length i
   rw [List.getElem?_append_left (by simp [List.length_take]; omega)]
-  simp [List.getElem?_take, hj]
+  simp [hj]
 
 /-- … and the items after it are the old ones, shifted by one -/
 theorem groupAdd_getElem_after (items : List Cont) (g : Cont) (i : Int) (j : Nat)
@@ -257,7 +257,7 @@ theorem findByTag_ok (gtag gvalue : PyObj) (items : List Cont) (g : Cont)
         · simp only [he, if_true, Except.ok.injEq] at h
           subst h
           exact ⟨[], rest, rfl, ⟨s, hl, he⟩, by simp⟩
-        · simp only [he, if_false] at h
+        · simp only [he] at h
           exact skip h (by
             rintro ⟨s', hs', he'⟩
             rw [hl] at hs'
